@@ -129,6 +129,7 @@ def run_case(ctx, case):
             ctx.violation(f'map-raises:{type(exc).__name__}:{rcls}', str(exc)[:200], witness=w)
             continue
         model = emap.__dict__['_gmv_model']
+        persistent = refm.copy()
         ctx.hit('ref:' + rcls)
         ctx.hit('geometry:' + info['geometry'])
         if not np.all(np.isfinite(base)):
@@ -139,7 +140,11 @@ def run_case(ctx, case):
             R, t = gen_motion(rng, mcls, pos)
             pos2 = pos @ R.T + t
             try:
-                out2 = np.array(emap(emmon.with_positions(refm, pos2)).atoms_positions)
+                if m % 2:
+                    persistent.atoms_positions = pos2          # one argument object moved in place between calls
+                    out2 = np.array(emap(persistent).atoms_positions)
+                else:
+                    out2 = np.array(emap(emmon.with_positions(refm, pos2)).atoms_positions)
             except Exception as exc:  # noqa
                 ctx.violation(f'map-raises:{type(exc).__name__}:{rcls}', str(exc)[:200], witness=dict(w, R=R, t=t))
                 break
